@@ -50,3 +50,25 @@ Definition m_fspec_trace (und : bool) (n : nat) (ops : list (mop + nat)) :=
   gspec_trace clean (fun s o => match m_rejected_code (fa s) o with None => Some 0 | x => x end) (fm_step und) (fun s => sobserve_m und (fa s)) (fun s => sn (fa s)) 7 (fs_init n) ops.
 Definition w_fspec_trace (und : bool) (n : nat) (ops : list (wop + nat)) :=
   gspec_trace clean (fun s o => match w_rejected_code (fa s) o with None => Some 0 | x => x end) (fw_step und) (fun s => sobserve_w und (fa s)) (fun s => sn (fa s)) 7 (fs_init n) ops.
+(* ---- C06 ---- *)
+Definition spec_eqb {V : Type} (veq : V -> V -> bool) (a b : @sgraph V) : bool :=
+  Nat.eqb (sn a) (sn b) && lmap_sub veq (se a) (se b) && lmap_sub veq (se b) (se a).
+Definition opt2 {A B} (f : A -> A -> B) (x y : option A) : option B := match x, y with Some a, Some b => Some (f a b) | _, _ => None end.
+Definition veq_of (hs : bool) : Z -> Z -> bool := if hs then Z.eqb else fun _ _ => true.
+Definition d_eq_case (hs : bool) (v : variant) (n : nat) (a b : list (@dop Z)) : list Z :=
+  eq_vector (graph_eqb Z.eqb) (gfinal (step hs v) (init n) a) (gfinal (step hs v) (init n) b).
+Definition d_eq_spec (hs : bool) (n : nat) (a b : list (@dop Z)) : option (list Z) :=
+  seq_vector (opt2 (spec_eqb (veq_of hs)) (gsfinal rejected_code spec_step (s_init n) a) (gsfinal rejected_code spec_step (s_init n) b)).
+Definition u_eq_case (hs : bool) (v : variant) (n : nat) (a b : list (@uop Z)) : list Z :=
+  eq_vector (graph_eqb Z.eqb) (gfinal (ustep hs v) (init n) a) (gfinal (ustep hs v) (init n) b).
+Definition u_eq_spec (hs : bool) (n : nat) (a b : list (@uop Z)) : option (list Z) :=
+  seq_vector (opt2 (spec_eqb (veq_of hs)) (gsfinal u_rejected_code uspec_step (s_init n) a) (gsfinal u_rejected_code uspec_step (s_init n) b)).
+Definition m_eqb (x y : mgraph) := graph_eqb Z.eqb (mg x) (mg y).
+Definition dm_eq_case (v : variant) (n : nat) (a b : list mop) := eq_vector m_eqb (gfinal (dm_step v) (dm_init n) a) (gfinal (dm_step v) (dm_init n) b).
+Definition um_eq_case (v : variant) (set0 : bool) (n : nat) (a b : list mop) := eq_vector m_eqb (gfinal (um_step v set0) (dm_init n) a) (gfinal (um_step v set0) (dm_init n) b).
+Definition dw_eq_case (v : variant) (n : nat) (a b : list wop) := eq_vector m_eqb (gfinal (dw_step v) (dm_init n) a) (gfinal (dw_step v) (dm_init n) b).
+Definition uw_eq_case (v : variant) (canon : bool) (n : nat) (a b : list wop) := eq_vector m_eqb (gfinal (uw_step v canon) (dm_init n) a) (gfinal (uw_step v canon) (dm_init n) b).
+Definition m_eq_spec (und : bool) (n : nat) (a b : list mop) :=
+  seq_vector (opt2 (spec_eqb Z.eqb) (gsfinal m_rejected_code (mspec_step und) (s_init n) a) (gsfinal m_rejected_code (mspec_step und) (s_init n) b)).
+Definition w_eq_spec (und : bool) (n : nat) (a b : list wop) :=
+  seq_vector (opt2 (spec_eqb Z.eqb) (gsfinal w_rejected_code (wspec_step und) (s_init n) a) (gsfinal w_rejected_code (wspec_step und) (s_init n) b)).
